@@ -33,10 +33,45 @@ from .extract import items_of, match_close, ExtractError
 
 MAX_DEPTH = 3
 PREFIX = "vx_h_"
+# `a.b.name(..)` with a receiver other than `self`: the receiver's type is unknown to a syntactic rule; it is bound as
+# `let vx_h_self: &Self = &a.b;`, so rustc rejects the unit (undecided) when `a.b` is something else that happens to have a method of
+# that name.  The repo-wide sweep (tests_autohelper/sweep_repo.py) switches this shape off to get a tree that compiles.
+ALLOW_RECV = True
+
+
+# the tokens this rule GENERATES (braces of the block, parameter bindings, the typed binding of the tail) are bracketed by these
+# comments in the inlined text; everything else inside the block is the helper's real text.  Region anchors with an occurrence
+# number (`to-before `}` #11`) do not count generated tokens (Unit._lift_region); R10 drops the comments afterwards.
+MARK_O = "/*vxh[*/"
+MARK_C = "/*]vxh*/"
 
 
 class CannotInline(Exception):
     pass
+
+
+def generated_token_indices(text):
+    """indices, in sig(lex(text)), of the tokens that lie between MARK_O and MARK_C comments"""
+    out = set()
+    depth = 0
+    k = 0
+    for t in lex(text):
+        if t.kind == "comment":
+            if t.text == MARK_O:
+                depth += 1
+            elif t.text == MARK_C and depth > 0:
+                depth -= 1
+            continue
+        if t.kind == "ws":
+            continue
+        if depth > 0:
+            out.add(k)
+        k += 1
+    return out
+
+
+def strip_marks(text):
+    return text.replace(MARK_O, "").replace(MARK_C, "")
 
 
 # ----------------------------------------------------------------------------------------------------------------------
@@ -73,10 +108,6 @@ _KW = {"as", "async", "await", "break", "const", "continue", "crate", "dyn", "el
 _QUALS = {"pub", "async", "const", "unsafe", "extern", "default"}
 _OPEN = "([{"
 _CLOSE = ")]}"
-
-
-def _is(t, text):
-    return t is not None and t.text == text and t.kind in ("punct", "ident")
 
 
 def _path_sep_before(st, i):
@@ -174,7 +205,7 @@ class FnSig:
     pass
 
 
-def parse_fn(text):
+def parse_fn(text, strict=True):
     """-> FnSig(name, is_async, is_unsafe, generics [(kind, name)], receiver, params [(name, is_mut, type_text)], ret (text or
     None), has_where, body_open/body_close (offsets of the braces), st)"""
     st = sig(lex(text))
@@ -217,6 +248,7 @@ def parse_fn(text):
     pc = match_close(st, i)
     f.receiver = None
     f.params = []
+    f.pattern_names = set()
     for k, (a, b) in enumerate(_split_commas(st, i + 1, pc, True)):
         toks = st[a:b]
         # attributes on parameters are not handled
@@ -247,6 +279,10 @@ def parse_fn(text):
             is_mut = True
             j += 1
         if toks[j].kind != "ident" or words[j] in _KW or j + 1 >= len(toks) or words[j + 1] != ":" or (j + 2 < len(toks) and words[j + 2] == ":"):
+            if not strict:
+                # the calling item: only the names its parameter patterns bind matter
+                f.pattern_names |= set(t.text for t in toks if t.kind == "ident" and t.text not in _KW and (t.text[0].islower() or t.text[0] == "_"))
+                continue
             raise CannotInline("parameter `%s` is not a plain identifier" % _txt(text, st, a, b))
         f.params.append((words[j], is_mut, _txt(text, st, a + j + 2, b), (a + j + 2, b)))
     i = pc + 1
@@ -580,7 +616,7 @@ def _lower_returns(src, st, lo, hi, lo_off, hi_off):
             rest_lo = b
             rest_off = st[b - 1].end
             rest = _lower_returns(src, st, rest_lo, hi, rest_off, hi_off)
-            return src[lo_off:st[ra].start] + expr + src[st[rb - 1].end:st[c].start] + "} else {" + rest + "}\n"
+            return src[lo_off:st[ra].start] + expr + src[st[rb - 1].end:st[c].start] + "}" + MARK_O + " else {" + MARK_C + rest + MARK_O + "}" + MARK_C + "\n"
         raise CannotInline("`return` in a position the rule does not handle (only a trailing `return e;` and statement-level guard clauses `if c { ..; return e; }` are)")
     return src[lo_off:hi_off]
 
@@ -628,10 +664,7 @@ def _rename_safe(body, names):
         nxt2 = st[k + 2].text if k + 2 < len(st) else ""
         if prev in ("{", ",") and (nxt in (",", "}") or (nxt == ":" and nxt2 != ":")):
             # `Foo { name }` / `Foo { name: name }` (field) cannot be told from a block `{ name }` here
-            if not (prev == "{" and nxt == "}" and False):
-                raise CannotInline("`%s` must be renamed but occurs in struct-literal field position" % t.text)
-        if nxt == "!" or nxt == "(" and prev != "." and False:
-            raise CannotInline("`%s` must be renamed but is used as a macro" % t.text)
+            raise CannotInline("`%s` must be renamed but occurs in struct-literal field position" % t.text)
 
 
 def _idents(st, lo, hi):
@@ -657,11 +690,16 @@ def _caller_bound_names(fsig):
     """names the calling item binds locally (parameters, `let`, `for`, closure parameters, `ref`/`mut` patterns): a superset is
     fine, it only makes the rule refuse"""
     st = fsig.st
-    out = set(p[0] for p in fsig.params)
+    out = set(p[0] for p in fsig.params) | set(fsig.pattern_names)
     for k, t in enumerate(st):
         if t.kind != "ident" or t.text in _KW:
             continue
         prev = st[k - 1].text if k > 0 else ""
+        nxt_ = st[k + 1].text if k + 1 < len(st) else ""
+        if nxt_ == "!":
+            continue
+        if prev == "mut" and k > 1 and st[k - 2].text == "&":
+            continue                                      # `&mut x` borrows x, it does not bind it
         if prev in ("let", "mut", "for", "ref", "|"):
             out.add(t.text)
         elif prev in ("(", ",") and k + 1 < len(st) and st[k + 1].text in (")", ",", "|") and k > 1:
@@ -684,7 +722,7 @@ def _fnlike_free_names(st, lo, hi, own):
         if _path_sep_before(st, k):
             continue
         nxt = st[k + 1].text if k + 1 < hi else ""
-        if nxt in ("(", "!") or _path_sep_after(st, k):
+        if nxt == "(" or _path_sep_after(st, k):        # (macros live in their own namespace: a local cannot capture `name!`)
             if t.text[0].islower() or t.text[0] == "_":
                 out.add(t.text)
     return out
@@ -697,12 +735,51 @@ class _Site:
     pass
 
 
-def _find_call(st, name, start=0):
-    """index of the first token `name` at or after `start` (identifier, not a field access `x.name` without call)"""
-    for k in range(start, len(st)):
-        if st[k].kind == "ident" and st[k].text == name:
+def _occurs(st, k, helper):
+    """token k is an occurrence of the helper's name that can denote the helper.  Not the helper:
+       `x.name` / `x.name(..)` when the helper has no receiver (a field, or a method of something else);
+       plain `name(..)` when the helper is an associated function (a plain call never resolves to one);
+       `Q::name` with Q an identifier other than `Self` / the helper's type (`Vec::new`, `Arc::new`, `MerkleHash::default`), and for
+       a free helper any `Q::name` except through `self::` / `super::` / `crate::`."""
+    if st[k].kind != "ident" or st[k].text != helper.name:
+        return False
+    if k > 0 and st[k - 1].text == "." and not (k > 1 and st[k - 2].text == "."):
+        return helper.sig.receiver is not None
+    if _path_sep_before(st, k):
+        q = st[k - 3] if k >= 3 else None
+        if q is not None and q.kind == "ident":
+            if helper.kind == "assoc":
+                return q.text in ("Self", helper.self_type_name)
+            return q.text in ("self", "super", "crate")
+        return True
+    if helper.kind == "assoc" and k + 1 < len(st) and st[k + 1].text == "(":
+        return False
+    return True
+
+
+def _find_call(st, helper, start=0, limit=None):
+    """index of the LAST occurrence of the helper's name at or after token `start` that begins before source offset `limit`.
+    Call sites are rewritten right to left, `limit` moving to the start of each rewritten site: text the rule has inserted (a
+    helper body may itself call a method of that name on something else) is never looked at again."""
+    for k in range(len(st) - 1, start - 1, -1):
+        if (limit is None or st[k].start < limit) and _occurs(st, k, helper):
             return k
     return None
+
+
+def _recursive(bst, helper):
+    """the helper body calls the helper itself: `self.name(..)`, `Self::name(..)` / `Type::name(..)`, or plain `name(..)` for a free
+    helper.  `other.name(..)` is a method of something else (or of another object: inlining one level is still exact)."""
+    for k, t in enumerate(bst):
+        if not _occurs(bst, k, helper):
+            continue
+        if k > 0 and bst[k - 1].text == ".":
+            if k > 1 and bst[k - 2].text == "self" and not (k > 2 and bst[k - 3].text == "."):
+                return True
+            continue
+        if _path_sep_before(bst, k) or (k + 1 < len(bst) and bst[k + 1].text == "("):
+            return True
+    return False
 
 
 def _classify_site(src, st, k, helper):
@@ -750,10 +827,19 @@ def _classify_site(src, st, k, helper):
         else:
             s.shape = "recv"
             s.receiver = _txt(src, st, j, k - 1)
+            if not ALLOW_RECV:
+                raise CannotInline("method call on `%s`: other receivers switched off" % s.receiver)
             if fs.receiver != "&self":
                 raise CannotInline("method call on `%s`: only a `&self` helper can be bound to another receiver" % s.receiver)
+            s.self_ty = "Self"
             if not helper.same_container:
-                raise CannotInline("method call on `%s`: helper is not in the calling item's own impl block (`Self` would differ)" % s.receiver)
+                # a method of ANOTHER type of the same file (`shard_col.truncated_lookup_hash(..)`): bound with the type's own name, which
+                # needs an inherent, non-generic impl and a helper that does not say `Self`
+                hdr = sig(lex(helper.container or ""))
+                inherent = bool(hdr) and hdr[0].text == "impl" and not any(t.kind == "ident" and t.text in ("for", "where") for t in hdr) and not any(t.text == "<" for t in hdr)
+                if not inherent or helper.self_type_generic or "Self" in _idents(fs.st, 0, len(fs.st)):
+                    raise CannotInline("method call on `%s`: helper is not in the calling item's own impl block (`Self` would differ)" % s.receiver)
+                s.self_ty = helper.self_type
     elif _path_sep_before(st, k):
         j = k - 3
         if j < 0 or st[j].kind != "ident" or _path_sep_before(st, j) or (j > 0 and st[j - 1].text == ">"):
@@ -851,15 +937,22 @@ def _enclosing_blocks_ok(st, k, body_open):
                 break
             if t.text in (")", "]"):
                 h = _match_open_back(st, h)
-            elif t.text in ("|", "async", "move"):
-                return False
-            elif t.text == "=" and st[h + 1].text != ">" and st[h + 1].text != "=" and st[h - 1].text not in ("=", "!", "<", ">"):
-                return False     # `let x = { .. }` / `x = match .. {`: a block in expression position, keep out
             h -= 1
+        head = st[h + 1:b]
+        if not head:
+            continue                                    # a plain `{ .. }` statement
+        first = head[1] if head[0].kind == "lifetime" and len(head) > 2 else head[0]
+        if head[0].kind == "lifetime" and len(head) > 2:
+            first = head[2]
+        if first.kind == "ident" and first.text in ("if", "while", "for", "loop", "match", "else", "unsafe"):
+            continue                                    # control flow (its condition may hold closures, `if let` a `=`)
+        if len(head) >= 2 and head[-1].text == ">" and head[-2].text == "=":
+            continue                                    # a match arm; the `match` itself is the next enclosing block
+        return False                                    # closure, async block, `let x = {`, struct literal, ...
     return True
 
 
-def _check_generics(helper, caller, site, src_st):
+def _check_generics(helper, caller, site, src_st, rebound=None):
     """generic helpers are refused when a parameter type, the return type or the body mentions one of their generics.
     One exception: a type parameter G whose every mentioning parameter receives, as argument, a plain parameter of the calling
     item declared with the textually identical type, the calling item declaring a generic G itself — G then denotes the caller's
@@ -889,7 +982,8 @@ def _check_generics(helper, caller, site, src_st):
         if caller is None or not any(k_ == "type" and n_ == g for k_, n_ in caller.generics + getattr(caller, "outer_generics", [])):
             raise CannotInline("generic helper: a parameter type mentions type parameter `%s`" % g)
         cparams = {p[0]: _norm(p[2]) for p in caller.params}
-        bound = _caller_let_names(caller)
+        # names the calling item re-binds (`let r = ..`): taken from the item as it was BEFORE this rule inserted any binding
+        bound = rebound if rebound is not None else _caller_let_names(caller)
         for i in mention:
             a, b = site.args[i]
             if b - a != 1 or src_st[a].kind != "ident" or cparams.get(src_st[a].text) != _norm(fs.params[i][2]) or src_st[a].text in bound:
@@ -903,11 +997,15 @@ def _check_generics(helper, caller, site, src_st):
     return life
 
 
-def _caller_let_names(fsig):
+def _caller_let_names(fsig, skip=()):
+    """names the item's body binds (`let x`, `for x`, closure parameters); skip: token indices to ignore (bindings this rule generated)"""
     st = fsig.st
     out = set()
     for k, t in enumerate(st):
-        if t.kind == "ident" and k > fsig.body_open_idx and st[k - 1].text in ("let", "mut", "for", "ref", "|") and t.text not in _KW:
+        if k in skip:
+            continue
+        if t.kind == "ident" and k > fsig.body_open_idx and st[k - 1].text in ("let", "mut", "for", "ref", "|") and t.text not in _KW \
+                and not (st[k - 1].text == "mut" and st[k - 2].text == "&"):
             out.add(t.text)
         elif t.kind == "ident" and k > fsig.body_open_idx and st[k - 1].text in ("(", ",") and k + 1 < len(st) and st[k + 1].text in (")", ",", "|") \
                 and t.text not in _KW and st[k - 1].text == "," and st[k + 1].text == "|":
@@ -921,13 +1019,27 @@ def _with_lifetimes(ty, life):
     return "".join(life.get(t.text, t.text) if t.kind == "lifetime" else t.text for t in lex(ty))
 
 
+# macros known not to `return` / `?` out of the enclosing function; any other macro in a helper body makes the rule refuse
+# (`bail!`, `ensure!`, `ready!`, `try!` and project macros can expand to `return ..`, which must not move into the caller)
+_PLAIN_MACROS = {"vec", "format", "print", "println", "eprint", "eprintln", "write", "writeln", "format_args", "panic", "unreachable",
+                 "unimplemented", "todo", "assert", "assert_eq", "assert_ne", "debug_assert", "debug_assert_eq", "debug_assert_ne",
+                 "debug_assert_le", "debug_assert_lt", "debug_assert_ge", "debug_assert_gt", "assert_le", "assert_lt", "assert_ge",
+                 "assert_gt", "matches", "cfg", "concat", "stringify", "line", "file", "column", "module_path", "env", "option_env",
+                 "include_str", "include_bytes", "dbg", "debug", "info", "warn", "error", "trace", "anyhow", "info_span", "debug_span",
+                 "trace_span", "warn_span", "error_span", "span", "event", "json", "join", "try_join", "pin_mut", "const_assert"}
+
+
 def _prepare_body(helper):
     """call-site independent part: the body text with `return` lowered; flags"""
     fs = helper.sig
     body = helper.body
     bst = sig(lex(body))
-    if any(t.kind == "ident" and t.text == helper.name for t in bst):
+    if _recursive(bst, helper):
         raise CannotInline("helper mentions itself (recursion)")
+    for k, t in enumerate(bst):
+        if t.kind == "ident" and k + 1 < len(bst) and bst[k + 1].text == "!" and k + 2 < len(bst) and bst[k + 2].text in _OPEN \
+                and t.text not in _PLAIN_MACROS:
+            raise CannotInline("helper body invokes the macro `%s!`, which may `return` from the function" % t.text)
     if _count(bst, 0, len(bst), "return"):
         if any(t.text == "?" for t in bst):
             raise CannotInline("helper body has both `return` and `?`")
@@ -944,7 +1056,7 @@ def _bind_tail(body, ret_ty, unwrap=None, question=False):
     unwrap='Ok'|'Some': the tail must be literally `Ok(E)` and becomes `E`; with question=True any other tail becomes `(TAIL)?`."""
     st = sig(lex(body))
     stmts = split_stmts(st, 0, len(st))
-    if not stmts or stmts[-1][2]:
+    if not stmts or stmts[-1][2] or (stmts[-1][3] and st[stmts[-1][0]].text in ("loop", "while", "for")) or st[stmts[-1][0]].kind == "lifetime":
         if unwrap:
             raise CannotInline("helper body with `?` has no tail expression")
         return body
@@ -961,32 +1073,33 @@ def _bind_tail(body, ret_ty, unwrap=None, question=False):
             raise CannotInline("tail of the helper body is not literally `%s(..)`" % unwrap)
     if ret_ty is None:
         return body[:st[a].start] + tail + body[st[b - 1].end:]
-    return body[:st[a].start] + "let %sret: %s = %s; %sret" % (PREFIX, ret_ty, tail, PREFIX) + body[st[b - 1].end:]
+    return body[:st[a].start] + MARK_O + "let %sret: %s = " % (PREFIX, ret_ty) + MARK_C + tail + MARK_O + "; %sret" % PREFIX + MARK_C + body[st[b - 1].end:]
 
 
-def _inline_one(item_text, helper, body0, has_q):
-    """replace the first call of the helper in item_text; returns new text, or None if the name does not occur"""
+def _inline_one(item_text, helper, body0, has_q, limit, orig_rebound=None):
+    """replace the last call of the helper in item_text that begins before offset `limit`; returns (new text, new limit), or None
+    if there is none"""
     fs = helper.sig
     toks = lex(item_text)
     st = sig(toks)
     try:
-        caller = parse_fn(item_text)
-    except (CannotInline, IndexError):
-        caller = None
-    lo = caller.body_open_idx if caller is not None else 0
-    k = _find_call(st, helper.name, lo)
+        caller = parse_fn(item_text, strict=False)
+    except (CannotInline, IndexError, ExtractError):
+        raise CannotInline("the calling item is not a function the rule understands")
+    lo = caller.body_open_idx
+    k = _find_call(st, helper, lo, limit)
     if k is None:
-        if _find_call(st, helper.name, 0) is not None:
+        if _find_call(st, helper, 0, st[lo].start) is not None:
             raise CannotInline("`%s` occurs in the signature of the calling item" % helper.name)
         return None
-    if caller is not None and caller.name == helper.name:
+    if caller.name == helper.name:
         raise CannotInline("calling item has the helper's own name")
     s = _classify_site(item_text, st, k, helper)
-    life = _check_generics(helper, caller, s, st)
+    life = _check_generics(helper, caller, s, st, orig_rebound)
     # ---- capture, direction 1: module-level names of the body vs. locals of the calling item
     bst = sig(lex(body0))
     own = set(p[0] for p in fs.params) | _caller_let_names_of_body(bst)
-    if caller is not None:
+    if True:
         cb = _caller_bound_names(caller)
         clash = sorted(_fnlike_free_names(bst, 0, len(bst), own) & cb)
         if clash:
@@ -998,15 +1111,11 @@ def _inline_one(item_text, helper, body0, has_q):
             raise CannotInline("the helper mentions `%s`, which is a type parameter of the calling item" % clash[0])
     if not helper.same_self_type and "Self" in (_idents(bst, 0, len(bst)) | _idents(fs.st, 0, fs.body_open_idx)) and helper.kind == "assoc":
         raise CannotInline("helper mentions `Self` and is called from outside its type")
-    uses_self = "self" in _idents(bst, 0, len(bst))
     # ---- `?`
     body = body0
     ret_ty = _with_lifetimes(fs.ret, life) if fs.ret is not None and _norm(fs.ret) != "( )" else None
     end = s.last
-    repl_tail_q = False
     if has_q:
-        if caller is None:
-            raise CannotInline("helper body uses `?` and the calling item is not a function")
         hp = _result_parts(fs.ret)
         cp = _result_parts(caller.ret)
         if hp is None or cp is None or hp[1] not in ("Result", "Option") or hp[0] != cp[0] or len(hp[2]) != len(cp[2]) or hp[2][1:] != cp[2][1:]:
@@ -1022,18 +1131,17 @@ def _inline_one(item_text, helper, body0, has_q):
                 pass
             elif st[ss].text == "let" and st[s.first - 1].text == "=" and st[s.first - 2].text not in ("=", "!", "<", ">", "+", "-", "*", "/", "%", "^", "&", "|"):
                 pass
-            elif st[s.first - 1].text == "=" and all((t.kind == "ident" and (t.text not in _KW or t.text == "self")) or t.text == "." for t in st[ss:s.first - 1]) and s.first - 1 > ss:
-                pass
+            elif st[s.first - 1].text == "=" and _is_place(_strip_assign_op(st[ss:s.first - 1])):
+                pass            # `place = f(..)?;` and `place += f(..)?;` (any compound assignment operator)
             else:
                 raise CannotInline("helper body uses `?`: call is not of the form `let P = f(..)?;` / `place = f(..)?;` / `f(..)?;`")
             wrap = "Ok" if hp[1] == "Result" else "Some"
             inner_ty = _with_lifetimes(_ret_first_arg(fs), life)
             body = _bind_tail(body, inner_ty, unwrap=wrap, question=True)
             end = s.last + 1        # swallow the `?`
-            repl_tail_q = True
         else:
             # tail of the function body: `f(..)` directly before the closing brace of the calling item
-            if ss != s.first or s.last + 1 != caller.body_close_idx or len([1 for _ in [0]]) != 1 or not _is_fn_tail(st, s, caller):
+            if ss != s.first or not _is_fn_tail(st, s, caller):
                 raise CannotInline("helper body uses `?`: call is neither followed by `?` nor the tail expression of the calling item")
             body = _bind_tail(body, ret_ty)
     else:
@@ -1045,45 +1153,56 @@ def _inline_one(item_text, helper, body0, has_q):
         later = set()
         for ids in arg_ids[i + 1:]:
             later |= ids
-        if s.shape == "recv" and i == 0:
-            pass
         if p[0] in later:
             ren[p[0]] = PREFIX + p[0]
-    if s.shape == "recv":
-        # the receiver is bound first: parameters evaluated after it must not be captured by it (vx_h_self is fresh)
-        if not uses_self:
-            pass
     if ren:
         body_ids = _idents(sig(lex(body)), 0, 10 ** 9)
         for old, new in ren.items():
-            if new in body_ids or new in _idents(st, 0, len(st)):
+            if new in body_ids or any(new in ids for ids in arg_ids):
                 raise CannotInline("fresh name `%s` is already in use" % new)
         _rename_safe(body, set(ren))
         body = _rename(body, ren)
     binds = []
     if s.shape == "recv":
-        if "vx_h_self" in _idents(st, 0, len(st)):
+        if any(PREFIX + "self" in ids for ids in arg_ids) or PREFIX + "self" in _idents(sig(lex(body0)), 0, 10 ** 9):
             raise CannotInline("fresh name `vx_h_self` is already in use")
         for tk in sig(lex(body)):
             if tk.kind == "str" and re.search(r"\{\s*self\b", tk.text):
                 raise CannotInline("`self` inside a format string")
-        binds.append("let %sself: &Self = &%s;" % (PREFIX, s.receiver))
+        binds.append("let %sself: &%s = &%s;" % (PREFIX, s.self_ty, s.receiver))
         body = _rename(body, {"self": PREFIX + "self"})
     for (pname, is_mut, pty, _), (a, b) in zip(fs.params, s.args):
         binds.append("let %s%s: %s = %s;" % ("mut " if is_mut else "", ren.get(pname, pname), _with_lifetimes(pty, life), _txt(item_text, st, a, b)))
-    block = "{ " + " ".join(binds) + body + "}"
-    # ---- context: a bare block is not an expression everywhere
-    prev = st[s.first - 1].text if s.first > 0 else "{"
+    block = _in_context(MARK_O + "{ " + " ".join(binds) + MARK_C + body + MARK_O + "}" + MARK_C, st, s.first, end)
+    return item_text[:st[s.first].start] + block + item_text[st[end].end:], st[s.first].start
+
+
+def _in_context(block, st, first, end):
+    """a bare block is not an expression everywhere (statement start + `.`/operator, operand position): parenthesise unless the
+    replaced tokens st[first..end] are a whole initialiser / argument / statement"""
+    prev = st[first - 1].text if first > 0 else "{"
     nxt = st[end + 1].text if end + 1 < len(st) else "}"
-    safe_prev = prev in ("=", "(", ",", "{", ";", "}", "return") or (prev == ">" and st[s.first - 2].text == "=")
-    if prev == "=" and s.first >= 2 and st[s.first - 2].text in ("=", "!", "<", ">") and st[s.first - 2].end == st[s.first - 1].start:
+    safe_prev = prev in ("=", "(", ",", "{", ";", "}", "return") or (prev == ">" and st[first - 2].text == "=")
+    if prev == "=" and first >= 2 and st[first - 2].text in ("=", "!", "<", ">") and st[first - 2].end == st[first - 1].start:
         safe_prev = False       # `a == f(x)` etc.
     safe_next = nxt in (";", ",", ")", "}")
-    if prev in ("{", ";", "}") and nxt == "}" :
-        safe_prev = safe_next = True
     if not (safe_prev and safe_next):
-        block = "(" + block + ")"
-    return item_text[:st[s.first].start] + block + item_text[st[end].end:]
+        block = MARK_O + "(" + MARK_C + block + MARK_O + ")" + MARK_C
+    return block
+
+
+def _strip_assign_op(toks):
+    """tokens before the `=` of an assignment statement, without the operator of a compound assignment (`+ - * / % ^ & | << >>`)"""
+    if toks and toks[-1].kind == "punct" and toks[-1].text in "+-*/%^&|":
+        return toks[:-1]
+    if len(toks) >= 2 and toks[-1].text == toks[-2].text and toks[-1].text in "<>" and toks[-2].end == toks[-1].start:
+        return toks[:-2]
+    return toks
+
+
+def _is_place(toks):
+    """`a`, `a.b.c`, `self.a`: identifiers and dots only"""
+    return bool(toks) and all((t.kind == "ident" and (t.text not in _KW or t.text == "self")) or t.text == "." for t in toks) and toks[0].kind == "ident" and toks[-1].kind == "ident"
 
 
 def _is_fn_tail(st, s, caller):
@@ -1102,9 +1221,18 @@ def _ret_first_arg(fs):
 
 
 def _caller_let_names_of_body(bst):
+    """names the helper body evidently binds itself (`let x`, `mut x`, `for x`, `ref x`, closure parameters, tuple-pattern members):
+    an UNDER-approximation is the safe direction here - these names are exempt from the capture check of module-level names"""
     out = set()
     for k, t in enumerate(bst):
-        if t.kind == "ident" and t.text not in _KW and k > 0 and bst[k - 1].text in ("let", "mut", "for", "ref", "|", "(", ","):
+        if t.kind != "ident" or t.text in _KW or k == 0:
+            continue
+        nxt = bst[k + 1].text if k + 1 < len(bst) else ""
+        if nxt in ("(", "!") or _path_sep_after(bst, k):
+            continue
+        if bst[k - 1].text in ("let", "mut", "for", "ref") and not (bst[k - 1].text == "mut" and k > 1 and bst[k - 2].text == "&"):
+            out.add(t.text)
+        elif bst[k - 1].text == "|" and nxt in ("|", ",", ":"):
             out.add(t.text)
     return out
 
@@ -1114,6 +1242,22 @@ def count_calls(text, name):
     st = sig(lex(text))
     return sum(1 for k, t in enumerate(st) if t.kind == "ident" and t.text == name and k + 1 < len(st) and st[k + 1].text == "("
                and not (k > 0 and st[k - 1].text == "fn"))
+
+
+def refers_to(text, name):
+    """`name(`, `::name`, `.name(` : the text uses `name` as a function (called, or passed as a function value through a path)"""
+    st = sig(lex(text))
+    for k, t in enumerate(st):
+        if t.kind == "ident" and t.text == name and not (k > 0 and st[k - 1].text == "fn"):
+            if (k + 1 < len(st) and st[k + 1].text == "(") or _path_sep_before(st, k) or (_path_sep_after(st, k) and k + 3 < len(st) and st[k + 3].text == "<"):
+                return True
+    return False
+
+
+def occurrences(text, helper):
+    """number of occurrences of the helper's name in `text` that can denote the helper"""
+    st = sig(lex(text))
+    return sum(1 for k in range(len(st)) if _occurs(st, k, helper))
 
 
 def mentions(text, name):
@@ -1135,11 +1279,16 @@ def inline_calls(item_text, helper, log):
     body0, has_q = _prepare_body(helper)
     text = item_text
     n = 0
+    limit = None
+    try:
+        rebound = _caller_let_names(parse_fn(item_text, strict=False), generated_token_indices(item_text))
+    except (CannotInline, IndexError, ExtractError):
+        raise CannotInline("the calling item is not a function the rule understands")
     while True:
-        new = _inline_one(text, helper, body0, has_q)
+        new = _inline_one(text, helper, body0, has_q, limit, rebound)
         if new is None:
             break
-        text = new
+        text, limit = new
         n += 1
         if n > 40:
             raise CannotInline("too many call sites")
@@ -1150,14 +1299,226 @@ def inline_calls(item_text, helper, log):
     return text
 
 
-def inline_item(repo, path, container, item_text, names, log, info, item_key):
+# ----------------------------------------------------------------------------------------------------------------------
+# 8. constants an edit introduced next to the helpers (`const HASH_WINDOW_SIZE: usize = 64;` moved out of a fn body)
+
+class ConstDef:
+    def __init__(self, text, container=None, caller_container=None):
+        self.text = text
+        self.container = container
+        self.caller_container = caller_container
+        st = sig(lex(text))
+        i = 0
+        while i < len(st) and st[i].text != "const":
+            if st[i].text == "(":
+                i = match_close(st, i)
+            i += 1
+        if i + 3 >= len(st) or st[i + 1].kind != "ident" or st[i + 2].text != ":" or st[-1].text != ";":
+            raise CannotInline("constant declaration not understood")
+        self.name = st[i + 1].text
+        self.decl = text[st[i].start:]        # `const NAME: T = EXPR;` without visibility
+        if "Self" in _idents(st, i, len(st)):
+            raise CannotInline("constant mentions `Self`")
+        self.kind = "free" if container is None else "assoc"
+        self.self_type, self.self_type_name, self.self_type_generic = _impl_self_type(container)
+        cst, _, _ = _impl_self_type(caller_container)
+        self.same_self_type = container is not None and caller_container is not None and cst == self.self_type
+
+
+def find_const(repo, path, name, container=None):
+    """`const NAME: T = E;` of the same file: in an impl of the calling item's type, else at module level (not in cfg(test) code)"""
+    try:
+        src, items = items_of(repo, path)
+    except (OSError, ExtractError):
+        return None
+    mods = [it for it in items if it.kind == "mod"]
+    out = []
+    for it in items:
+        if it.kind != "const" or it.name != name:
+            continue
+        a = " ".join(t.text for t in sig(lex(src[it.attrs_start:it.start])))
+        if "cfg (" in a or any(m.start <= it.start and it.end <= m.end and (m.name == "tests" or "cfg ( test )" in " ".join(t.text for t in sig(lex(src[m.attrs_start:m.start])))) for m in mods):
+            continue
+        c = it.container[-1] if it.container else None
+        if c is not None and not _norm(c).startswith("impl"):
+            c = None if any(m.name == c for m in mods) else "trait"
+        if c == "trait":
+            continue
+        try:
+            out.append(ConstDef(it.text, c, container))
+        except (CannotInline, IndexError):
+            return None
+    same = [c for c in out if c.kind == "assoc" and c.same_self_type]
+    if len(same) == 1:
+        return same[0]
+    free = [c for c in out if c.kind == "free"]
+    if not same and len(free) == 1:
+        return free[0]
+    return None
+
+
+def inline_const(item_text, cdef, log, at_fn_start=True):
+    """uses `Self::NAME` / `Type::NAME` (associated constant of the calling item's type) or `NAME` (module-level constant) of a
+    constant the unit does not know.  at_fn_start: the REAL declaration `const NAME: T = EXPR;` becomes the first item of the
+    calling function's body and the uses become plain `NAME` (for a constant that an edit moved out of the function this restores
+    the original text).  Otherwise (regions: the function's first statement is not part of the region) every use becomes
+    `{ const VX_H_<k>_NAME: T = EXPR; VX_H_<k>_NAME }` (Verus wants distinct names for the items of one function)."""
+    st = sig(lex(item_text))
+    f = parse_fn(item_text)
+    uses = []
+    for k in range(f.body_open_idx + 1, f.body_close_idx):
+        t = st[k]
+        if t.kind != "ident" or t.text != cdef.name:
+            continue
+        if k > 0 and st[k - 1].text == "." and not (k > 1 and st[k - 2].text == "."):
+            continue
+        if st[k - 1].text == "const":
+            raise CannotInline("the calling item declares its own `const %s`" % cdef.name)
+        nxt = st[k + 1].text if k + 1 < len(st) else ""
+        if nxt in ("(", "!", "{", "|") or _path_sep_after(st, k) or (nxt == ":" and st[k - 1].text in ("{", ",")) or (nxt == "=" and st[k + 2].text == ">"):
+            raise CannotInline("`%s` is used other than as a constant value" % cdef.name)
+        first = k
+        if _path_sep_before(st, k):
+            q = st[k - 3]
+            if cdef.kind != "assoc" or q.kind != "ident" or _path_sep_before(st, k - 3):
+                raise CannotInline("`..::%s` does not name the constant found" % cdef.name)
+            if not ((q.text == "Self" and cdef.same_self_type) or (q.text == cdef.self_type_name and not cdef.self_type_generic)):
+                raise CannotInline("`%s::%s` does not name the constant found" % (q.text, cdef.name))
+            first = k - 3
+        elif cdef.kind != "free":
+            raise CannotInline("plain `%s` but the constant found is an associated constant" % cdef.name)
+        if st[first - 1].text in ("|", "=>", "let"):
+            raise CannotInline("`%s` in pattern position" % cdef.name)
+        uses.append((first, k))
+    if not uses:
+        raise CannotInline("no use of `%s` found" % cdef.name)
+    edits = []
+    if at_fn_start:
+        edits.append((st[f.body_open_idx].end, st[f.body_open_idx].end, " %s" % cdef.decl))
+        for first, k in uses:
+            if first != k:
+                edits.append((st[first].start, st[k].end, cdef.name))
+    else:
+        for n_, (first, k) in enumerate(uses, 1):
+            fresh = "VX_H_%d_%s" % (n_, cdef.name)
+            if any(t.text == fresh for t in st):
+                raise CannotInline("fresh name `%s` is already in use" % fresh)
+            decl = _rename(cdef.decl, {cdef.name: fresh})
+            edits.append((st[first].start, st[k].end, _in_context(MARK_O + "{ %s %s }" % (decl, fresh) + MARK_C, st, first, k)))
+    edits.sort()
+    out = []
+    pos = 0
+    for a, b, r in edits:
+        out.append(item_text[pos:a])
+        out.append(r)
+        pos = b
+    out.append(item_text[pos:])
+    key = "R9h inline const %s at %d site(s)" % (cdef.name, len(uses))
+    log[key] = log.get(key, 0) + 1
+    return "".join(out)
+
+
+def _helper_loops(helper):
+    """token sequences (texts, kinds) of the outermost loops of the helper body"""
+    bst = sig(lex(helper.body))
+    out = []
+    k = 0
+    while k < len(bst):
+        t = bst[k]
+        if t.kind == "ident" and t.text in ("for", "while", "loop") and not (t.text == "for" and k + 1 < len(bst) and bst[k + 1].text == "<") \
+                and not (k > 0 and bst[k - 1].text == "." ):
+            try:
+                e = _block_end(bst, k, len(bst))
+            except (CannotInline, ExtractError, IndexError):
+                e = len(bst) - 1
+            out.append(bst[k:e + 1])
+            k = e + 1
+            continue
+        k += 1
+    return out
+
+
+def _alpha_window(seq, base, keep=()):
+    """does `seq` occur in the token list `base` up to a consistent one-to-one renaming of variable-like identifiers?  Names in
+    `keep` must stay as they are."""
+    n = len(seq)
+
+    def fixed(ts, i):
+        t = ts[i]
+        if t.kind != "ident":
+            return True
+        if t.text in _KW or not (t.text[0].islower() or t.text[0] == "_"):
+            return True
+        prev = ts[i - 1].text if i > 0 else ""
+        nxt = ts[i + 1].text if i + 1 < len(ts) else ""
+        return prev == "." or nxt in ("(", "!") or _path_sep_before(ts, i) or _path_sep_after(ts, i)
+    for s0 in range(0, len(base) - n + 1):
+        if base[s0].text != seq[0].text:
+            continue
+        fwd, bwd = {}, {}
+        ok = True
+        for i in range(n):
+            a, b = seq[i], base[s0 + i]
+            if a.kind != b.kind:
+                ok = False
+                break
+            if a.text == b.text:
+                if a.kind == "ident" and (fwd.get(a.text, b.text) != b.text or bwd.get(b.text, a.text) != a.text):
+                    ok = False
+                    break
+                if a.kind == "ident":
+                    fwd[a.text] = b.text
+                    bwd[b.text] = a.text
+                continue
+            if a.kind != "ident" or fixed(seq, i) or fixed(base, s0 + i) or a.text in keep or b.text in keep:
+                ok = False
+                break
+            if fwd.get(a.text, b.text) != b.text or bwd.get(b.text, a.text) != a.text:
+                ok = False
+                break
+            fwd[a.text] = b.text
+            bwd[b.text] = a.text
+        if ok:
+            return True
+    return False
+
+
+def loops_fit_baseline(helper, baseline_text):
+    """Driver policy, not a semantic side condition: a unit's loop invariants are attached by POSITION (`//@ loop k`) and were
+    written for the loops of the baseline source.  A helper body whose loop is not one of the baseline item's loops (moved verbatim,
+    up to renaming of locals) is a new or restructured loop: the invariants would land on a loop they were not written for, fail,
+    and be reported as a violation of the property.  Such a helper is not inlined (the unit stays undecided, as it was before the
+    rule existed).  Returns None if every loop of the helper fits, else the reason."""
+    loops_fit_baseline.needs_context = False
+    loops = _helper_loops(helper)
+    if not loops:
+        return None
+    if baseline_text is None:
+        return "helper body contains a loop and the unit has no baseline text for the calling item to compare it with"
+    base = sig(lex(baseline_text))
+    # parameters must be called in the baseline loop what they are called in the helper: the verifier's loops know only their
+    # invariants, and the invariants speak about the baseline's names - a binding `let keys: &[u64] = &file_lookup_keys;` made before
+    # the loop is not known inside it (patch B09, U-SHWRITE: every invariant about `file_lookup_keys` failed on the loop over `keys`)
+    keep = set(p[0] for p in helper.sig.params)
+    for lp in loops:
+        if not _alpha_window(lp, base, keep):
+            if _alpha_window(lp, base):
+                # the baseline loop with a PARAMETER renamed: the invariants fit once the loop sees the parameter binding made in
+                # front of it, i.e. with `#[verifier::loop_isolation(false)]` on the item (the caller of this function asks for it)
+                loops_fit_baseline.needs_context = True
+                continue
+            return "helper body contains a loop (`%s ..`) that is not a loop of the item's baseline source (up to renaming of the helper's own locals; parameters keep their names): positional loop invariants would not fit" % " ".join(t.text for t in lp[:6])
+    return None
+
+
+def inline_item(repo, path, container, item_text, names, log, info, item_key, region=False, baseline=None, check_loops=True):
     """Unit.generate's entry point.  For every requested name the item's raw text calls: look the helper up in the same source
     file and inline it; bodies that call further requested names are inlined in turn (depth <= MAX_DEPTH).  Failures are
     recorded in info['inline_failed'] (text unchanged for that helper), successes in info['inlined']."""
     text = item_text
     failed = set()
     for depth in range(MAX_DEPTH + 1):
-        todo = [n for n in names if n not in failed and mentions(_body_of(text), n)]
+        todo = [n for n in names if n not in failed and (refers_to(_body_of(text), n) or (n.isupper() and _uses_const(_body_of(text), n)))]
         if not todo:
             break
         if depth == MAX_DEPTH:
@@ -1167,16 +1528,77 @@ def inline_item(repo, path, container, item_text, names, log, info, item_key):
         for n in todo:
             h = find_helper(repo, path, n, container)
             if h is None:
+                c = find_const(repo, path, n, container)
+                if c is not None:
+                    try:
+                        text = inline_const(text, c, log, at_fn_start=not region)
+                        _note(info, "inlined", "%s: const %s" % (item_key, n))
+                        continue
+                    except (CannotInline, ExtractError, IndexError) as e:
+                        failed.add(n)
+                        _note(info, "inline_failed", "%s: const %s: %s" % (item_key, n, str(e) or e.__class__.__name__))
+                        continue
                 failed.add(n)
                 _note(info, "inline_failed", "%s: %s: no (unique) `fn %s` in %s" % (item_key, n, n, path))
                 continue
             try:
+                why = loops_fit_baseline(h, baseline) if check_loops and not isinstance(h, _Unparsed) else None
+                if why:
+                    raise CannotInline(why)
                 text = inline_calls(text, h, log)
                 _note(info, "inlined", "%s: %s" % (item_key, n))
+                if check_loops and getattr(loops_fit_baseline, "needs_context", False):
+                    _note(info, "inlined_loop_needs_context", item_key)
             except (CannotInline, ExtractError, IndexError) as e:
                 failed.add(n)
                 _note(info, "inline_failed", "%s: %s: %s" % (item_key, n, str(e) or e.__class__.__name__))
+            except Exception as e:  # noqa: a defect of this rule must never take the driver down: refuse
+                failed.add(n)
+                _note(info, "inline_failed", "%s: %s: internal error %s: %s" % (item_key, n, e.__class__.__name__, e))
     return text
+
+
+def new_callees(unit, repo):
+    """names that the unit's extracted items call in the CURRENT source but did not mention in the baseline source (the text the
+    unit was written against), and for which a helper `fn` exists in the item's own source file: what an edit extracted.  Used by
+    the driver when generation itself fails (e.g. `loop 2 not found`: the loop now lives in the helper), where no compiler
+    message names the helper."""
+    from .extract import find_item
+    base = unit._load_baseline()
+    own = set(spec.name for kind, spec in unit.parts if kind == "item" and spec.kind in ("fn", "region"))
+    out = []
+    for kind, spec in unit.parts:
+        if kind != "item" or spec.kind not in ("fn", "region"):
+            continue
+        try:
+            it = find_item(repo, spec.path, "fn", spec.name, spec.container)
+        except (ExtractError, OSError):
+            continue
+        btxt = base.get(unit.item_key(spec))
+        if btxt is None or btxt == it.text:
+            continue
+        bnames = set(t.text for t in lex(btxt) if t.kind == "ident")
+        st = sig(lex(_body_of(it.text)))
+        for k, t in enumerate(st):
+            if t.kind != "ident" or t.text in _KW or t.text in bnames or t.text in own or t.text in out:
+                continue
+            if k + 1 < len(st) and st[k + 1].text == "(" and not (k > 0 and st[k - 1].text == "fn") and (t.text[0].islower() or t.text[0] == "_"):
+                if find_helper(repo, spec.path, t.text, spec.container) is not None:
+                    out.append(t.text)
+    return out
+
+
+def _uses_const(text, name):
+    """`name` is used and not declared in the text"""
+    st = sig(lex(text))
+    used = False
+    for k, t in enumerate(st):
+        if t.kind == "ident" and t.text == name:
+            if k > 0 and st[k - 1].text == "const":
+                return False
+            if not (k > 0 and st[k - 1].text == "."):
+                used = True
+    return used
 
 
 def _body_of(text):
